@@ -55,6 +55,9 @@ type outcome struct {
 }
 
 func (o outcome) String() string {
+	if o.Kind == "logs" {
+		return fmt.Sprintf("logs(%d)", len(strings.Split(o.Root, ",")))
+	}
 	if o.Kind == "accepted" || o.Kind == "read" {
 		return fmt.Sprintf("%s(%d,%s)", o.Kind, o.Size, o.Root[:min(8, len(o.Root))])
 	}
@@ -67,6 +70,7 @@ type concEnv struct {
 	keys     []*vlib.Key
 	origins  []string
 	env      *vlib.Env
+	db       *sql.DB
 }
 
 func newConcEnv(c *ConcCase) *concEnv {
@@ -92,12 +96,14 @@ func (ce *concEnv) cp(log, branch int, size uint64) []byte {
 func (ce *concEnv) newWitness(storage string) (*witness.Witness, *vlib.IPersist, func(), error) {
 	var p persistence.LogStatePersistence
 	closer := func() {}
+	ce.db = nil
 	if storage == "sql" {
 		db, err := sql.Open("sqlite3", ":memory:")
 		if err != nil {
 			return nil, nil, nil, err
 		}
 		db.SetMaxOpenConns(1) // cmd/omniwitness/monolith.go:134-135
+		ce.db = db
 		p = psql.NewPersistence(db)
 		closer = func() { _ = db.Close() }
 	} else {
@@ -156,7 +162,14 @@ func (ce *concEnv) finalState(w *witness.Witness) []outcome {
 	for li := range ce.origins {
 		out = append(out, ce.do(w, ConcReq{Kind: "read", Log: li}))
 	}
-	return out
+	// the list of known logs is part of the state (sorted; duplicates would show)
+	logs, err := w.GetLogs()
+	sort.Strings(logs)
+	o := outcome{Kind: "logs", Root: strings.Join(logs, ",")}
+	if err != nil {
+		o.Kind = "logs-error"
+	}
+	return append(out, o)
 }
 
 // refOutcomes runs the requests in the given order, one at a time, on a fresh witness
@@ -171,7 +184,7 @@ func (ce *concEnv) sequential(order []int, cache *refCache) ([]outcome, []outcom
 	cache.mu.Lock()
 	if v, ok := cache.m[key]; ok {
 		cache.mu.Unlock()
-		n := len(ce.origins)
+		n := len(ce.origins) + 1
 		return v[:len(v)-n], v[len(v)-n:], nil
 	}
 	cache.mu.Unlock()
@@ -280,6 +293,9 @@ func runSchedule(c *ConcCase, choices []int, cache *refCache) (vlib.SchedResult,
 		return vlib.SchedResult{}, nil, fmt.Errorf("harness: %v", err)
 	}
 	s := vlib.NewScheduler(ip, c.Storage == "sql")
+	if db := ce.db; db != nil {
+		s.ConnBusy = func() bool { return db.Stats().InUse > 0 }
+	}
 	obs := make([]outcome, len(c.Reqs))
 	fns := make([]func(), len(c.Reqs))
 	for i := range c.Reqs {
